@@ -97,9 +97,7 @@ func checkPayAmount(c *Ctx, rule, key string, ci ssa.CallInstruction) {
 
 func checkC19(c *Ctx) {
 	p := c.P
-	checkReceiverDiscipline(c, "R6", func(n string) bool {
-		return n == "playerRunner" || n == "actor" || n == "actions" || n == "tableEngineAdapter"
-	}, 30)
+	checkReceiverDiscipline(c, "R6", p.implementersIn("/actor", "Runner", "Actor", "Actions", "Adapter"), 30)
 	checkNoKnownNilErrorReturn(c, "R1", func(f *ssa.Function) bool { return inPkg(p, f, "/actor") }, 5)
 	ri := p.Iface("/actor", "Runner")
 	if ri == nil {
